@@ -411,6 +411,35 @@ def rand_e2e(chk, i):
     return (mc, word)
 
 
+MP_SHAPES = [[(2, [1, 1])], [(2, [1, 1]), (2, [1, 1])], [(3, [2, 1, 1])], [(2, [1]), (2, [1, 2])]]
+
+
+def run_mp(i):
+    """Task histories of several processes (and of nOS-V and Nanos6 side by side) in which the task and
+    task type ids are the same small numbers in every process, as in an SPMD code; the labels of equal ids
+    differ from process to process in half of the cases.  Acceptance and every thread / CPU view (task id,
+    type label, rank ...) are compared with the reference model after every event (the C06 comparison)."""
+    import c06
+    chk, build = _CTX["chk"], _CTX["plain"]
+    rng = chk.rng(i, "mp")
+    shape = MP_SHAPES[i % len(MP_SHAPES)]
+    enabled = ["V", "6", "V6"][(i // len(MP_SHAPES)) % 3]
+    desc = c06.make_desc(rng, shape)
+    g = histgen.Gen(rng, desc, enabled, {}, weights={"task": 14, "model": 6, "state": 1, "aff": 1, "misc": 0, "mark": 0,
+                                                      "kernel": 0})
+    g.local_ids = True
+    g.run(rng.choice([60, 150, 300]))
+    lint = rng.random() < 0.5
+    hist = g.finish(close_regions=lint)
+    case = {"desc": desc, "enabled": enabled, "marks": {}, "hist": hist, "lint": lint}
+    wd = os.path.join(chk.scratch, "mp-%d" % os.getpid())
+    try:
+        v, st = c06.judge_case(case, build, wd)
+    finally:
+        shutil.rmtree(wd, ignore_errors=True)
+    return {"i": i, "viol": v, "events": len(hist)}
+
+
 def main(argv):
     chk = core.Check("C07", "exploration", argv)
     asan = chk.build("asan", ["emu", "parson-static", "common-static"])
@@ -438,13 +467,23 @@ def main(argv):
         acc += 1 if res["acc"] else 0
         if v:
             chk.report(v[0], v[1], {"mc": mc, "word": [(a, b, c.hex()) for a, b, c in word], "observation": v[2]})
-    cov = {"evaluations": na + nb, "distinct_nontrivial": da + len(seen),
+    nmp = 0
+    if not chk.replay:
+        for res in core.pmap(run_mp, range(120 if quick else 2400), chunksize=2):
+            v = res["viol"]
+            if v and v[0] == "inconclusive":
+                chk.note_inconclusive(v[1]); continue
+            nmp += 1
+            if v:
+                chk.report("multi-process:" + v[0], v[1], {"mp": res["i"], "observation": v[2] if len(v) > 2 else None})
+    cov = {"evaluations": na + nb + nmp, "distinct_nontrivial": da + len(seen), "multi_process_histories": nmp,
            "rule": "(A) real task.c/body.c in-process (ASan+UBSan): for 17 flag combinations of {parallel, resurrect, pause, "
                    "relax-nesting}, every legal prefix of bounded length over execute/pause/resume/end x {A1,A2,B1,C1,C2} x 2 "
                    "stacks extended by every next op (return code of the next op and the running body per stack compared) + "
                    "random sequences to length 30; (B) nOS-V and Nanos6 task histories on two threads through ovniemu: "
                    "closure over VTx/VTp/VTr/VTe (normal tasks 1,2; parallel task 3 bodies 1,2; API pause region) and "
-                   "6Tx/6Tp/6Tr/6Te (+ blocking region), random to length 50; acceptance and types 10-15 / 35-38 per event. "
+                   "6Tx/6Tp/6Tr/6Te (+ blocking region), random to length 50; acceptance and types 10-15 / 35-38 per event; (C) task-heavy generated histories of 2-4 processes in which "
+                   "task and type ids repeat from process to process (and between nOS-V and Nanos6), every view compared per event. "
                    "distinct_nontrivial = distinct sequences executed",
            "samples": [{"harness": "4 4 1 : xA10 pA10 xB10", "expected": "0 0 0"},
                        {"e2e": "VTx(1,0) VTp(1,0) VTx(2,0) VTe(2,0) VTr(1,0) VTe(1,0)", "expected": "accepted"}],
